@@ -355,10 +355,21 @@ func (f *Frame) dispatch(st *State, e *ast.CallExpr, fn *types.Func, recv *Term,
 		}
 	}
 	// contract?
-	if ct := f.eng.contracts[full]; ct != nil && !f.inSpec {
-		if err := f.eng.bindContract(ct); err == nil {
-			return f.contractCall(st, e, ct, recv, args, sig)
+	if ct := f.eng.contracts[full]; ct != nil && ct.Opts["pure"] != "" {
+		// declared pure (trusted): a deterministic function of its arguments, no effects
+		c.note("call " + shortFuncName(full) + " modelled as an uninterpreted pure function (opt pure)")
+		var all []*Term
+		if recv != nil {
+			all = append(all, recv)
 		}
+		all = append(all, args...)
+		return f.uninterpCall(st, "pure!"+shortFuncName(full), nil, all, sig)
+	}
+	if ct := f.eng.contracts[full]; ct != nil && !f.inSpec {
+		if err := f.eng.bindContract(ct); err != nil {
+			panic(unsupported{err.Error()})
+		}
+		return f.contractCall(st, e, ct, recv, args, sig)
 	}
 	fi := f.eng.funcs[orig]
 	if fi != nil && f.depth < maxInlineDepth && !f.onStack(orig) && !c.eng.noInline[full] {
